@@ -54,6 +54,17 @@ def std_config(keys, nacct=6, locked=True):
     return accts, perms, admins
 
 
+def accts_from_config(cfg):
+    """the accounts a list of configuration lines declares (for replay files, which carry the lines only)"""
+    out = []
+    for l in cfg:
+        f = l.split()
+        if f and f[0] == "acct":
+            un = lambda x: "" if x == "." else bytes.fromhex(x).decode()
+            out.append(Acct(un(f[1]), un(f[2]), bytes.fromhex(f[3]), f[4] == "1"))
+    return out
+
+
 def config_lines(accts, perms, admins, raws=()):
     out = []
     for a in accts:
